@@ -39,6 +39,8 @@ type Act struct {
 	Coef []int  `json:"coef,omitempty"` // coefficients (int-valued lhs)
 	C0   int    `json:"c0,omitempty"`
 	Raw  string `json:"raw,omitempty"` // extra raw text inserted into the action (comments, braces); no $ inside
+	// NoAssign: the action never assigns $$ (the lhs keeps the fresh, zero value the parser starts a reduction with)
+	NoAssign bool `json:"noassign,omitempty"`
 }
 
 // Rule is one production.
@@ -286,7 +288,7 @@ func (g *Grammar) TokenValue(tok, pos int) Value {
 func (g *Grammar) EvalRule(k int, kids []Value) Value {
 	r := g.Rules[k]
 	ltag := g.NTs[r.Lhs].Tag
-	if ltag == "" {
+	if ltag == "" || r.Act.NoAssign {
 		return Value{}
 	}
 	if TagIsInt(ltag) {
@@ -324,7 +326,7 @@ func (g *Grammar) ActionText(k int) string {
 	if r.Act.Raw != "" {
 		s += "; " + r.Act.Raw
 	}
-	if ltag == "" {
+	if ltag == "" || r.Act.NoAssign {
 		return s
 	}
 	if TagIsInt(ltag) {
